@@ -47,7 +47,7 @@ RULE = ('api strata: (host column from a 43-entry dtype grid: bool, 8 int, 3 flo
         'without NaT, object) x (one element from a 57-element grid incl. NaN None NaT 2**53+1 2**63 2**64 long strings tuples NumPy scalars date/datetime/timedelta) '
         'or x (another column of the grid), through 11 Series/Index element operations, 10 Series array operations, 11 Frame element operations and 14 Frame array '
         'operations, the Frame ones under EVERY block layout (zoo.layouts_for); iterable constructors on all pairs and a lattice of triples of a 37-element grid. '
-        'quick tier: a seeded sample of each space plus one fixed witness per known finding; thorough tier: the complete product (Frame strata on the 31x32 core grid). '
+        'quick tier: a seeded sample of each space plus one fixed witness per known finding; thorough tier: the complete product for the first operation of each family, the other operations on the 31-dtype core grid, the Frame strata on a 20-dtype x 18-element grid under every layout. '
         'kernel strata: util.resolve_dtype on all 47x47 ordered dtype pairs against the regenerated Gallina function and the typed model, np.result_type against the '
         'oracle (562 pairs), dtype_from_element, dtype_to_fill_value, dtype_kind_to_na, random dtype lists through resolve_dtype_iter/concat_resolved, random element '
         'lists through prepare_iter_for_array. An operation that raises stores nothing (counted, trivial). A case is non-trivial when two different dtypes really meet; '
@@ -270,6 +270,13 @@ FILLS_CORE = [True, 0, -1, 256, 2**53 + 1, 2**63 - 1, 2**63, 2**64, 1.5, 0.1, fl
               np.datetime64('NaT'), np.datetime64('2020-01-01'), np.datetime64('2020-03', 'M'), np.datetime64('2020-01-02', 'W'), np.datetime64(1, 'ns'),
               np.timedelta64(5, 'D'), np.timedelta64(7, 'ns'), np.timedelta64('NaT'), (1, 'a'), np.int8(3), np.uint64(2**64 - 1), np.float32(1.5),
               np.str_('abcdef'), np.bool_(False), datetime.date(2020, 1, 1)]
+
+
+# the Frame strata of the thorough tier (complete product x every layout) use this grid; the quick tier samples the core grid
+HOSTS_FRAME = ['bool', 'int8', 'int64', 'uint8', 'uint64', 'float16', 'float64', 'complex128', '<U1', '<U4', 'S4', 'M8[Y]', 'M8[W]', 'M8[D]', 'M8[ns]',
+               'M8[ns]/full', 'm8[Y]', 'm8[D]', 'm8[ns]/full', 'object']
+FILLS_FRAME = [True, 0, 2**53 + 1, 2**63, 2**64, 1.5, float('nan'), 1 + 2j, 'abcdefgh', b'abcdefgh', None, np.datetime64('NaT'),
+               np.datetime64('2020-01-02', 'W'), np.datetime64(1, 'ns'), np.timedelta64(5, 'D'), (1, 'a'), np.float32(1.5), np.uint64(2**64 - 1)]
 
 
 def kind_of_elem(x):
@@ -646,9 +653,10 @@ def elem_case(ctx, kind, op, hd, fv):
 
 def series_elem_cases(ctx):
     pairs = [(hd, fv) for hd in HOSTS for fv in FILLS]
+    core_pairs = [(hd, fv) for hd in HOSTS_CORE for fv in FILLS]
     for k, op in enumerate(SERIES_ELEM_OPS):
         if ctx.tier == 'thorough':
-            sel = pairs
+            sel = pairs if k == 0 else core_pairs
         else:
             sel = ctx.rng.sample(pairs, min(len(pairs), ctx.n(450 if k == 0 else 35, 0)))
         for hd, fv in sel:
@@ -771,8 +779,9 @@ def arr_case(ctx, kind, op, hd, od, **kw):
 
 def series_arr_cases(ctx):
     pairs = [(hd, od) for hd in HOSTS for od in HOSTS]
+    core_pairs = [(hd, od) for hd in HOSTS_CORE for od in HOSTS_CORE]
     for k, op in enumerate(SERIES_ARR_OPS):
-        sel = pairs if ctx.tier == 'thorough' else ctx.rng.sample(pairs, min(len(pairs), ctx.n(350 if k == 0 else 35, 0)))
+        sel = (pairs if k == 0 else core_pairs) if ctx.tier == 'thorough' else ctx.rng.sample(pairs, min(len(pairs), ctx.n(350 if k == 0 else 35, 0)))
         for hd, od in sel:
             c = arr_case(ctx, 'api:series-array', op, hd, od)
             if c is not None:
@@ -972,8 +981,9 @@ def frame_elem_case(ctx, op, hd, fv, layout):
 
 def frame_elem_cases(ctx):
     pairs = [(hd, fv) for hd in HOSTS_CORE for fv in FILLS_CORE]
+    full = [(hd, fv) for hd in HOSTS_FRAME for fv in FILLS_FRAME]
     for op in FRAME_ELEM_OPS:
-        sel = pairs if ctx.tier == 'thorough' else ctx.rng.sample(pairs, min(len(pairs), ctx.n(8, 0)))
+        sel = full if ctx.tier == 'thorough' else ctx.rng.sample(pairs, min(len(pairs), ctx.n(8, 0)))
         for hd, fv in sel:
             for layout in layouts3(host(hd)):
                 c = frame_elem_case(ctx, op, hd, fv, layout)
@@ -1116,8 +1126,9 @@ SAME_PAIR_OPS = (fop_row, fop_values, fop_transpose, fop_iter_array_rows)
 
 def frame_arr_cases(ctx):
     pairs = [(hd, od) for hd in HOSTS_CORE for od in HOSTS_CORE]
+    full = [(hd, od) for hd in HOSTS_FRAME for od in HOSTS_FRAME]
     for op in FRAME_ARR_OPS:
-        sel = pairs if ctx.tier == 'thorough' else ctx.rng.sample(pairs, min(len(pairs), ctx.n(12, 0)))
+        sel = full if ctx.tier == 'thorough' else ctx.rng.sample(pairs, min(len(pairs), ctx.n(12, 0)))
         for hd, od in sel:
             a, b = host(hd), host(od)
             second = b.dtype if op in SAME_PAIR_OPS else (a.dtype if op is fop_assign_row_series else OTHER.dtype)
@@ -1238,7 +1249,7 @@ def iter_cases(ctx):
     triples = [(x, y, z) for x in ITER_ELEMS[::3] for y in ITER_ELEMS[1::3] for z in ITER_ELEMS[2::3]]
     for k, op in enumerate(ITER_OPS):
         if ctx.tier == 'thorough':
-            sel = pairs + triples
+            sel = pairs + triples if k == 0 else pairs
         else:
             sel = ctx.rng.sample(pairs + triples, min(len(pairs) + len(triples), ctx.n(300 if k == 0 else 45, 0)))
         for xs in sel:
